@@ -515,4 +515,42 @@ theorem Di.connect_disconnect' (s : Store K E) (h : Mirror s) (u v : K) (e : E)
   · by_cases hw : w = v
     · subst hw; simp only [if_true]; exact eraseKey_append_absent _ _ _ hni
     · simp [hw]
+
+/-- undirected: connecting `u`-`v` where `u` lists no edge to `v` in either orientation and disconnecting again
+    (from the same endpoint) gives back the value and leaves every list as it was, self-loop included -/
+theorem Un.connect_disconnect' (s : Store K E) (h : Mirror s) (u v : K) (e : E)
+    (hn : vals (unAdj s u) v = []) :
+    (Un.disconnect (connect s u v e) u v).2 = .val e ∧
+    ∀ w, ((Un.disconnect (connect s u v e) u v).1.get w).out = (s.get w).out ∧
+         ((Un.disconnect (connect s u v e) u v).1.get w).inn = (s.get w).inn := by
+  have hm := connect_mirror s u v e h
+  have hc := connect_spec' s u v e
+  simp only [unAdj, vals_append, List.append_eq_nil_iff] at hn
+  obtain ⟨hno, hni⟩ := hn
+  have hvo : vals (s.get v).inn u = [] := by rw [← h u v]; exact hno
+  by_cases huv : u = v
+  · subst huv
+    have hv : vals ((connect s u u e).get u).inn u = e :: [] := by
+      rw [(hc u).2]; simp only [if_true, vals_append, hni]; simp [vals]
+    have hd := Un.disconnect_found_inbound' (connect s u u e) hm u u e [] hv
+    refine ⟨hd.1, fun w => ?_⟩
+    rw [(hd.2 w).1, (hd.2 w).2, (hc w).1, (hc w).2]
+    by_cases hw : w = u
+    · subst hw; simp only [if_true]
+      exact ⟨eraseKey_append_absent _ _ _ hno, eraseKey_append_absent _ _ _ hni⟩
+    · simp [hw]
+  · have hi : vals ((connect s u v e).get u).inn v = [] := by
+      rw [(hc u).2]; simp only [huv, if_false]; exact hni
+    have hv : vals ((connect s u v e).get u).out v = e :: [] := by
+      rw [(hc u).1]; simp only [if_true, vals_append, hno]; simp [vals]
+    have hd := Un.disconnect_found_outbound' (connect s u v e) hm u v e [] hi hv
+    refine ⟨hd.1, fun w => ?_⟩
+    rw [(hd.2 w).1, (hd.2 w).2, (hc w).1, (hc w).2]
+    constructor
+    · by_cases hw : w = u
+      · subst hw; simp only [if_true]; exact eraseKey_append_absent _ _ _ hno
+      · simp [hw]
+    · by_cases hw : w = v
+      · subst hw; simp only [if_true]; exact eraseKey_append_absent _ _ _ hvo
+      · simp [hw]
 end G
